@@ -315,7 +315,9 @@ def check_framing_sites(f, rep):
     if not forbidden:
         rep.ok("R02.4", "R02.4|no-unwrapping", "into_inner/into_parts/from_parts/decoder_mut/read_buffer of asynchronous_codec are called nowhere (0 sites in %d bodies)" % len(f.bodies))
     # same FramedIo through both exchanges, then moved into the backend
-    pcs = [b for b in f.bodies if b.path.endswith("util::peer_connected::{closure#0}")]
+    from . import hs
+    pcs = [b for b in [hs.co(f, "driver")] if b is not None]
+    role_of = {hs.anchors(f).get("greet"): "greet_exchange", hs.anchors(f).get("ready"): "ready_exchange"}
     rep.floor("R02.4", "handshake driver", len(pcs), 1)
     for b in pcs:
         roots = {}
@@ -323,8 +325,8 @@ def check_framing_sites(f, rep):
             if not fn:
                 continue
             n = fn["name"]
-            if n in ("greet_exchange", "ready_exchange"):
-                roots[n] = root_local(b, t["args"][0])
+            if callee_name(fn) in role_of:
+                roots[role_of[callee_name(fn)]] = root_local(b, t["args"][0])
             if n == "peer_connected" and (fn.get("trait") or "").endswith("MultiPeerBackend"):
                 roots["register"] = root_local(b, t["args"][2]) if len(t["args"]) > 2 else None
                 roots["register_moved"] = t["args"][2]["k"] == "move" if len(t["args"]) > 2 else False
